@@ -297,3 +297,61 @@ def handshake(m, t, tier):
     out.append(_ob(f'handshake:key-placement[m={m},t={t}]', func, t0, f'(m,t)=({m},{t}); chunkings {chunkings} x connection orders', bad, evals=n,
                    key='handshake:key-placement', replay=_replay('handshake', (m, t, tier)) if bad else None))
     return out
+
+
+# ------------------------------------------------------------------ crash points (C36): a party stops sending after its k-th message
+def crash_points(m, t, tier, no_prss=False, only=None):
+    """program: c = a0*a1 + a2 (input by all, multiplication, resharing, output).  Party j's messages with index >= k are never delivered
+    (it crashed after k sends).  Every OTHER party must either obtain the correct value or never complete; never a wrong value."""
+    func = 'mpyc.runtime.Runtime.output/_reshare/input (crash of one party)'
+    t0 = time.time()
+    from sx.mp import BLOCKED
+
+    async def prog(rt):
+        secint = rt.SecInt(16)
+        a = rt.input(secint(3 + rt.pid))
+        c = a[0] * a[min(1, m - 1)] + a[min(2, m - 1)]
+        d = rt.lsb(c)
+        return await rt.output([c, d])
+    vals = [3 + i for i in range(m)]
+    exp_c = vals[0] * vals[min(1, m - 1)] + vals[min(2, m - 1)]
+    expect = [exp_c, exp_c % 2]
+
+    def run(j, k):
+        mp.uninstall_symbolic(); mp.clear_caches(); mp.install_seeded(1)
+        loop, net, rts = mp.make_parties(m, t, no_prss=no_prss, k=30)
+        sent_by_j = [0]
+        for i, rt in enumerate(rts):
+            for peer in rt.parties:
+                pr = peer.protocol
+                if i == j and pr is not None and hasattr(pr, 'send'):
+                    orig = pr.send
+                    def send(pc, payload, orig=orig):
+                        sent_by_j[0] += 1
+                        if sent_by_j[0] > k: return            # crashed: message lost
+                        return orig(pc, payload)
+                    pr.send = send
+        try:
+            return mp.run_all(loop, rts, prog, allow_blocked=True), sent_by_j[0]
+        finally:
+            loop.close()
+    # number of messages a party sends in a complete run
+    res_full, _ = run(-1, 10 ** 9)
+    bad = None; n = 0; badcase = None
+    if any(r != expect for r in res_full): bad = f'fault-free run gives {res_full}, expected {expect}'
+    parties = range(m) if tier != 'quick' else sorted({0, m - 1, m // 2})
+    if only is not None: parties = [only[0]]
+    for j in parties:
+        if bad: break
+        _, total = run(j, 10 ** 9)
+        ks = range(total + 1) if only is None else [only[1]]
+        for k in ks:
+            n += 1
+            res, _ = run(j, k)
+            for i, r in enumerate(res):
+                if i == j or r == BLOCKED: continue
+                if r != expect:
+                    bad = f'party {j} crashed after {k} of {total} sends: surviving party {i} outputs {r!r} instead of {expect}'; badcase = (j, k); break
+            if bad: break
+    return [_ob(f'crash:no-wrong-output[m={m},t={t},prss={not no_prss}]', func, t0, f'(m,t)=({m},{t}); one party crashing after each of its message sends', bad,
+                evals=max(1, n), key='crash:no-wrong-output', replay=_replay('crash_points', (m, t, tier, no_prss, badcase)) if badcase else None)]
